@@ -44,6 +44,10 @@ class Svc(_rpyc.Service):
 
     def on_connect(self, conn):
         self.connected += 1
+        self.credentials = conn._config.get("credentials")
+
+    def exposed_whoami(self):
+        return self.credentials
 
     def on_disconnect(self, conn):
         self.disconnected += 1
